@@ -22,9 +22,14 @@ import (
 	"io/ioutil"
 	"math"
 	"math/rand"
+	"os"
+	"runtime/debug"
+	"runtime/pprof"
 	"sort"
 	"sync"
 	"sync/atomic"
+	"syscall"
+	"time"
 
 	"github.com/golang/protobuf/proto"
 
@@ -276,7 +281,12 @@ func (d *drv) checkViews(in *inst, views []*filer.ChunkView, a, b int64, variant
 	}
 }
 
+var tA, tB, tC int64
+
+func since(acc *int64, t0 time.Time) { atomic.AddInt64(acc, int64(time.Since(t0))) }
+
 func (d *drv) levelA(in *inst, chunks []*filer_pb.FileChunk, variant string, windows [][2]int64, viaVisibles bool) {
+	defer since(&tA, time.Now())
 	for _, w := range windows {
 		views := filer.ViewFromChunks(d.bs.Lookup, chunks, w[0], w[1]-w[0])
 		d.checkViews(in, views, w[0], w[1], variant, "ViewFromChunks")
@@ -301,6 +311,7 @@ func (d *drv) levelA(in *inst, chunks []*filer_pb.FileChunk, variant string, win
 // ---- level B: ChunkReadAt.ReadAt -------------------------------------------------------
 
 func (d *drv) levelB(in *inst, chunks []*filer_pb.FileChunk, variant string, useCache bool, windows [][2]int64) {
+	defer since(&tB, time.Now())
 	d.serve(in)
 	var cache chunk_cache.ChunkCache
 	cacheName := "none"
@@ -313,7 +324,7 @@ func (d *drv) levelB(in *inst, chunks []*filer_pb.FileChunk, variant string, use
 	views := filer.ViewFromChunks(d.bs.Lookup, chunks, 0, math.MaxInt64)
 	rd := filer.NewChunkReaderAtFromClient(d.bs.Lookup, views, cache, in.c.FileSize)
 	defer rd.Close()
-	for _, w := range windows {
+	for wi, w := range windows {
 		a, b := w[0], w[1]
 		wantN := b
 		if wantN > in.c.FileSize {
@@ -325,6 +336,9 @@ func (d *drv) levelB(in *inst, chunks []*filer_pb.FileChunk, variant string, use
 		}
 		want := in.want(a, a+wantN)
 		for _, fill := range []byte{prefill, 0} {
+			if fill == 0 && wi%3 != 0 && len(windows) > 12 {
+				continue // the clean-buffer read repeats the prefilled one; every third window is enough
+			}
 			bufName := "prefilled"
 			if fill == 0 {
 				bufName = "zeroed"
@@ -381,6 +395,7 @@ func (d *drv) levelB(in *inst, chunks []*filer_pb.FileChunk, variant string, use
 
 // windows for StreamContent are (offset, size); size may be math.MaxInt64 ("cat").
 func (d *drv) levelC(in *inst, chunks []*filer_pb.FileChunk, variant string, windows [][2]int64) {
+	defer since(&tC, time.Now())
 	d.serve(in)
 	for _, w := range windows {
 		a, size := w[0], w[1]
@@ -566,10 +581,9 @@ func randomWindows(rng *rand.Rand, in *inst, n int, limit int64) [][2]int64 {
 }
 
 func streamWindows(in *inst, ws [][2]int64) [][2]int64 {
+	// (0, MaxInt64) is how fs.cat / filer.cat / ReadAll-style callers ask for the whole file;
+	// offset>0 is only ever combined with an exact size (HTTP range handling)
 	out := [][2]int64{{0, math.MaxInt64}, {0, in.c.FileSize}}
-	if in.total > 1 {
-		out = append(out, [2]int64{1, math.MaxInt64})
-	}
 	for _, w := range ws {
 		if w[1] <= in.c.FileSize {
 			out = append(out, [2]int64{w[0], w[1] - w[0]})
@@ -666,25 +680,34 @@ func (d *drv) runCase(c *fileCase, pl plan) {
 
 	if pl.b || pl.full {
 		d.r.Count("lists_level_B", 1)
-		useCache := rng.Intn(2) == 0
+		// without a cache every chunk switch is an HTTP fetch: fewer windows there
+		useCache := rng.Intn(4) != 0
 		winB := winA
 		if small {
 			winB = allWindows(in.c.FileSize + 2)
+		} else if !pl.full {
+			winB = append(pickWindows(rng, winA, 40), [2]int64{0, in.c.FileSize}, [2]int64{0, in.c.FileSize + 3})
 		}
-		d.levelB(in, cloneChunks(in.chunks), "plain", useCache, winB)
-		d.levelB(in, compacted, "compacted", !useCache, pickWindows(rng, winB, 8))
+		few := pickWindows(rng, winB, 8)
+		if useCache || pl.full {
+			d.levelB(in, cloneChunks(in.chunks), "plain", true, winB)
+			d.levelB(in, compacted, "compacted", false, few)
+		} else {
+			d.levelB(in, cloneChunks(in.chunks), "plain", false, append(few, [2]int64{0, in.c.FileSize}))
+			d.levelB(in, compacted, "compacted", true, few)
+		}
 		if pl.full {
-			d.levelB(in, cloneChunks(in.chunks), "plain", !useCache, winB)
+			d.levelB(in, cloneChunks(in.chunks), "plain", false, winB)
 		}
 	}
 	if pl.c || pl.full {
 		d.r.Count("lists_level_C", 1)
-		n := 10
+		n := 6
 		if pl.full {
 			n = 40
 		}
 		d.levelC(in, cloneChunks(in.chunks), "plain", streamWindows(in, pickWindows(rng, winA, n)))
-		d.levelC(in, compacted, "compacted", streamWindows(in, pickWindows(rng, winA, 2)))
+		d.levelC(in, compacted, "compacted", streamWindows(in, pickWindows(rng, winA, 1)))
 	}
 	if (pl.manifest || pl.full) && len(in.chunks) >= 2 {
 		d.r.Count("lists_manifest_variants", 1)
@@ -709,10 +732,10 @@ func (d *drv) runCase(c *fileCase, pl plan) {
 			}
 		}
 		d.r.Count("manifest_chunks_level1", int64(nm))
-		wm := pickWindows(rng, winA, 8)
+		wm := pickWindows(rng, winA, 4)
 		wm = append(wm, [2]int64{0, in.c.FileSize})
 		d.levelA(in, m1, "manifest", wm, true)
-		d.levelB(in, cloneChunks(m1), "manifest", rng.Intn(2) == 0, pickWindows(rng, winA, 8))
+		d.levelB(in, cloneChunks(m1), "manifest", rng.Intn(4) != 0, pickWindows(rng, winA, 8))
 		d.levelC(in, cloneChunks(m1), "manifest", streamWindows(in, pickWindows(rng, winA, 2)))
 		// a second round on the same list leaves manifest chunks alone (doMaybeManifestize)
 		m2 := d.manifestize(in, cloneChunks(m1), 2, false, false)
@@ -725,7 +748,7 @@ func (d *drv) runCase(c *fileCase, pl plan) {
 			}
 			d.r.Count("nested_manifest_variants", 1)
 			d.levelA(in, m3, "nested-manifest", wm, true)
-			d.levelB(in, cloneChunks(m3), "nested-manifest", rng.Intn(2) == 0, pickWindows(rng, winA, 6))
+			d.levelB(in, cloneChunks(m3), "nested-manifest", rng.Intn(4) != 0, pickWindows(rng, winA, 6))
 			d.levelC(in, cloneChunks(m3), "nested-manifest", streamWindows(in, pickWindows(rng, winA, 1)))
 		}
 	}
@@ -740,15 +763,15 @@ func (d *drv) runCase(c *fileCase, pl plan) {
 // 1..4. The overlay (mtime) order is the digit order, so every ordered tuple — every
 // overlay order of every multiset — is enumerated; the order in which the chunks are
 // listed, the file-size surplus and the file id representation vary with the seed.
-func exhCase(seed int64, kind string, L int, idx int64) *fileCase {
+func exhCase(seed int64, kind string, L int, idx int64, nOff, nSize int) *fileCase {
 	c := &fileCase{Kind: kind, Index: idx, Seed: seed}
-	h := sha1.Sum([]byte(fmt.Sprintf("exh/%d/%d/%d", seed, L, idx)))
+	h := sha1.Sum([]byte(fmt.Sprintf("exh/%d/%s/%d/%d", seed, kind, L, idx)))
 	x := idx
 	specs := make([]chunkSpec, L)
 	for i := 0; i < L; i++ {
-		dgt := x % 32
-		x /= 32
-		specs[i] = chunkSpec{Off: dgt / 4, Size: int(dgt%4) + 1, Mtime: int64(100 + 10*i), Tag: uint32(i + 1), UseFid: h[8+i%8]&1 == 1}
+		dgt := x % int64(nOff*nSize)
+		x /= int64(nOff * nSize)
+		specs[i] = chunkSpec{Off: dgt / int64(nSize), Size: int(dgt%int64(nSize)) + 1, Mtime: int64(100 + 10*i), Tag: uint32(i + 1), UseFid: h[8+i%8]&1 == 1}
 	}
 	perm := rand.New(rand.NewSource(int64(binary.BigEndian.Uint64(h[:8]) >> 1))).Perm(L)
 	for _, p := range perm {
@@ -857,7 +880,7 @@ func bigCase(seed int64) *fileCase {
 		cur += int64(s.Size)
 		c.Chunks = append(c.Chunks, s)
 	}
-	for i := 0; i < 150; i++ {
+	for i := 0; i < 3; i++ {
 		s := chunkSpec{Size: 1 + rng.Intn(9), Mtime: int64(100000 + i), Tag: uint32(rng.Intn(1 << 20)), Off: rng.Int63n(cur)}
 		// listed at a random position: some end up inside the manifest, some after it
 		p := rng.Intn(len(c.Chunks))
@@ -881,6 +904,8 @@ func (d *drv) runBig(c *fileCase) {
 	d.r.Count("lists_big", 1)
 	d.r.Nontrivial("big/" + fmt.Sprint(c.Seed))
 	// the flow of filehandle.doFlush / FilerServer.cleanupChunks
+	t0 := time.Now()
+	progress(t0, "big: built")
 	manifestChunks, nonManifest := filer.SeparateManifestChunks(cloneChunks(in.chunks))
 	compacted, garbage := filer.CompactFileChunks(d.bs.Lookup, nonManifest)
 	chunks, err := filer.MaybeManifestize(d.saveAsChunk(in, true), compacted)
@@ -889,6 +914,7 @@ func (d *drv) runBig(c *fileCase) {
 		return
 	}
 	chunks = append(chunks, manifestChunks...)
+	progress(t0, "big: manifestized")
 	nm := 0
 	for _, ch := range chunks {
 		if ch.IsChunkManifest {
@@ -901,17 +927,27 @@ func (d *drv) runBig(c *fileCase) {
 		d.r.Inconclusive("the real MaybeManifestize built no manifest (fewer than 10000 visible chunks)")
 		return
 	}
-	win := randomWindows(rng, in, 5, c.FileSize)
+	win := randomWindows(rng, in, 3, c.FileSize)
 	win = append(win, [2]int64{0, c.FileSize})
 	d.levelA(in, chunks, "real-manifestize", win, true)
+	progress(t0, "big: A done")
 	d.levelB(in, cloneChunks(chunks), "real-manifestize", true, append(randomWindows(rng, in, 30, c.FileSize+2), [2]int64{0, c.FileSize}))
+	progress(t0, "big: B done")
 	var sw [][2]int64
 	for _, w := range randomWindows(rng, in, 40, c.FileSize) {
-		if w[1]-w[0] <= 64 && len(sw) < 4 {
+		if w[1]-w[0] <= 64 && len(sw) < 2 {
 			sw = append(sw, [2]int64{w[0], w[1] - w[0]})
 		}
 	}
 	d.levelC(in, cloneChunks(chunks), "real-manifestize", sw)
+}
+
+// progress writes a diagnostic line (phase, wall and CPU seconds so far) to stderr.
+func progress(t0 time.Time, phase string) {
+	var ru syscall.Rusage
+	_ = syscall.Getrusage(syscall.RUSAGE_SELF, &ru)
+	cpu := float64(ru.Utime.Sec+ru.Stime.Sec) + float64(ru.Utime.Usec+ru.Stime.Usec)/1e6
+	fmt.Fprintf(os.Stderr, "PROGRESS %s wall=%.1fs cpu=%.1fs A=%.1f B=%.1f C=%.1f\n", phase, time.Since(t0).Seconds(), cpu, float64(atomic.LoadInt64(&tA))/1e9, float64(atomic.LoadInt64(&tB))/1e9, float64(atomic.LoadInt64(&tC))/1e9)
 }
 
 func pow32(L int) int64 {
@@ -923,6 +959,7 @@ func pow32(L int) int64 {
 }
 
 func main() {
+	debug.SetGCPercent(400) // the race build allocates heavily; memory use stays small
 	r := lib.Start("C17", "exploration")
 	r.SetRule("a case is a chunk list (offset,size,mtime,list order; plain/gzip/encrypted chunks; FileId string or Fid struct) plus a file size; " +
 		"bounded-exhaustive: every ordered tuple of <=3 (thorough: <=4) chunks over offsets 0..7 x sizes 1..4 with the tuple order as overlay (mtime) order, " +
@@ -934,6 +971,11 @@ func main() {
 	r.Assume("level A interprets chunk views over the chunk data: it trusts that a correct reader copies view bytes to LogicOffset; levels B and C run the real readers on a sample")
 	r.Assume("StreamContent is not told the file size; with size=MaxInt64 it is expected to end at the end of the last chunk, otherwise windows end within the file size")
 
+	if pf := os.Getenv("VERIF_C17_PROF"); pf != "" { // development aid only
+		f, _ := os.Create(pf)
+		_ = pprof.StartCPUProfile(f)
+		defer pprof.StopCPUProfile()
+	}
 	bs, err := lib.NewBlobServer()
 	r.Must(err, "start blob server")
 	defer bs.Close()
@@ -956,16 +998,18 @@ func main() {
 		r.Finish(0)
 	}
 
-	// ---- bounded-exhaustive part (parallel workers; every decision is a function of (seed, index))
-	maxL := r.Pick(3, 4)
-	workers := 4
+	// ---- all small and random cases go through one pool of workers; every decision is a
+	// function of (seed, kind, index), so the schedule does not matter
+	workers := 8 // the readers wait on loopback HTTP most of the time
 	type job struct {
-		kind string
-		L    int
-		idx  int64
+		kind        string
+		L           int
+		idx         int64
+		nOff, nSize int
 	}
 	jobs := make(chan job, 1024)
 	var wg sync.WaitGroup
+	var jobNo int64
 	for w := 0; w < workers; w++ {
 		wg.Add(1)
 		go func() {
@@ -974,65 +1018,87 @@ func main() {
 				if r.Violations() > 50 {
 					continue
 				}
-				c := exhCase(r.Seed, j.kind, j.L, j.idx)
-				h := sha1.Sum([]byte(fmt.Sprintf("plan/%d/%s/%d/%d", r.Seed, j.kind, j.L, j.idx)))
-				sel := int(h[0])
-				pl := plan{b: sel%8 == 0, c: sel%16 == 1, manifest: sel%16 == 2}
-				if r.Thorough() && j.L == 4 { // a million lists: the real readers see one in 64 / 128
-					sel = int(h[0]) | int(h[1])<<8
-					pl = plan{b: sel%64 == 0, c: sel%128 == 1, manifest: sel%128 == 2}
+				if atomic.AddInt64(&jobNo, 1)%512 == 0 { // panics are caught per case; this only bounds the search after a hard crash
+					r.Case(map[string]interface{}{"kind": j.kind, "near_index": j.idx})
 				}
-				if pl.b || pl.c || pl.manifest {
-					r.Case(c)
+				if j.kind == "random" {
+					c := randomCase(r.Seed, j.idx)
+					d.runCase(c, plan{b: true, c: j.idx%2 == 0, manifest: true})
+					if j.idx == 0 {
+						cc := *c
+						if len(cc.Chunks) > 6 {
+							cc.Chunks = cc.Chunks[:6]
+						}
+						r.Sample(map[string]interface{}{"random_list_prefix": cc})
+					}
+					continue
+				}
+				c := exhCase(r.Seed, j.kind, j.L, j.idx, j.nOff, j.nSize)
+				h := sha1.Sum([]byte(fmt.Sprintf("plan/%d/%s/%d/%d", r.Seed, j.kind, j.L, j.idx)))
+				sel := int(h[0]) | int(h[1])<<8
+				pl := plan{b: sel%32 == 0, c: sel%64 == 1, manifest: sel%128 == 2}
+				if j.L <= 2 {
+					pl = plan{b: sel%8 == 0, c: sel%16 == 1, manifest: sel%32 == 2}
 				}
 				d.runCase(c, pl)
-				if j.L == 3 && j.idx%8191 == 17 {
+				if j.L == 3 && j.idx%1499 == 17 {
 					r.Sample(c)
 				}
 			}
 		}()
 	}
-	for L := 1; L <= maxL; L++ {
-		n := pow32(L)
-		kind := fmt.Sprintf("exh%d", L)
+	t0 := time.Now()
+	full := func(kind string, L, nOff, nSize int) {
+		n := int64(1)
+		for i := 0; i < L; i++ {
+			n *= int64(nOff * nSize)
+		}
 		for idx := int64(0); idx < n; idx++ {
-			jobs <- job{kind, L, idx}
+			jobs <- job{kind, L, idx, nOff, nSize}
+		}
+		r.Count("bounded_exhaustive_lists_"+kind, n)
+	}
+	sample := func(kind string, L int, count int) {
+		rng := r.SubRng("sample-" + kind)
+		for i := 0; i < count; i++ {
+			jobs <- job{kind, L, rng.Int63n(pow32(L)), 8, 4}
 		}
 	}
+	full("exh1", 1, 8, 4)
+	full("exh2", 2, 8, 4)
 	if r.Quick() {
-		// seeded sample of the 4-chunk space
-		rng := r.SubRng("exh4-sample")
-		for i := 0; i < 6000; i++ {
-			jobs <- job{"exh4", 4, rng.Int63n(pow32(4))}
+		full("exh3r", 3, 6, 3) // reduced space: offsets 0..5 x sizes 1..3
+		if os.Getenv("VERIF_C17_MAXL") == "" {
+			sample("exh3", 3, 3000)
+			sample("exh4", 4, 2000)
 		}
+		r.Note("bounded_exhaustive", "every ordered tuple of <=2 chunks over offsets 0..7 x sizes 1..4 and of 3 chunks over offsets 0..5 x sizes 1..3; level A on every window of every list")
+	} else {
+		full("exh3", 3, 8, 4)
+		sample("exh4", 4, 150000)
+		r.Note("bounded_exhaustive", "every ordered tuple of <=3 chunks over offsets 0..7 x sizes 1..4; level A on every window of every list")
+	}
+	nRandom := r.Pick(40, 1500)
+	if v := os.Getenv("VERIF_C17_NRANDOM"); v != "" { // development aid only
+		fmt.Sscan(v, &nRandom)
+	}
+	for i := 0; i < nRandom; i++ {
+		jobs <- job{kind: "random", idx: int64(i)}
 	}
 	close(jobs)
 	wg.Wait()
 	r.SetExhaustive(false)
-	r.Note("bounded_exhaustive", fmt.Sprintf("all ordered tuples of 1..%d chunks over offsets 0..7 x sizes 1..4 (level A on every window of every list)", maxL))
 
-	// ---- random large lists: every level on every list
-	nRandom := r.Pick(220, 4000)
-	for i := 0; i < nRandom && r.Violations() <= 50; i++ {
-		c := randomCase(r.Seed, int64(i))
-		r.Case(c)
-		d.runCase(c, plan{b: true, c: i%2 == 0, manifest: true})
-		if i < 1 {
-			cc := *c
-			if len(cc.Chunks) > 6 {
-				cc.Chunks = cc.Chunks[:6]
-			}
-			r.Sample(map[string]interface{}{"random_list_prefix": cc})
-		}
-	}
-
+	progress(t0, "random done")
 	// ---- the real MaybeManifestize
-	if r.Violations() <= 50 {
+	if r.Violations() <= 50 && r.Thorough() {
 		bc := bigCase(r.Seed)
 		r.Case(map[string]interface{}{"kind": "big", "seed": r.Seed})
 		d.runBig(bc)
 	}
 
+	progress(t0, "big done")
+	r.Note("worker_seconds_per_level(not an oracle input)", map[string]float64{"A_views": float64(tA) / 1e9, "B_ReadAt": float64(tB) / 1e9, "C_StreamContent": float64(tC) / 1e9})
 	r.Note("blob_server", map[string]int64{"requests": atomic.LoadInt64(&bs.Requests), "range_requests": atomic.LoadInt64(&bs.RangeRequests),
 		"gzip_responses": atomic.LoadInt64(&bs.GzipResponses), "not_found": atomic.LoadInt64(&bs.NotFound), "lookups": atomic.LoadInt64(&bs.Lookups)})
 	if r.Counter("B_ReadAt_prefilled_cache_tiered") == 0 || r.Counter("B_ReadAt_prefilled_cache_none") == 0 ||
@@ -1040,5 +1106,6 @@ func main() {
 		atomic.LoadInt64(&bs.Requests) == 0 {
 		r.Inconclusive("a reader or variant was never exercised")
 	}
+	pprof.StopCPUProfile()
 	r.Finish(1000)
 }
